@@ -718,6 +718,13 @@ func subDebugDialer() mon.Sub {
 			for i := range tr {
 				tr[i] = byte(i*13 + 5)
 			}
+			// what the server sends behind its head is a frame, and frames may hold anything - in particular the octets
+			// that end an HTTP head (a text message with an empty line, a length byte 0x0a in front of an LF): every
+			// other case plants LF LF, CRLF CRLF or CR LF LF near the start of the trailing bytes
+			if len(tr) >= 100 && c.Rng.Intn(2) == 0 {
+				pat := [][]byte{[]byte("\n\n"), []byte("\r\n\r\n"), []byte("\r\n\n"), []byte("a\n\nb\r\n\r\nc")}[c.Rng.Intn(4)]
+				copy(tr[2+c.Rng.Intn(40):], pat)
+			}
 			body := ""
 			if kind == 4 {
 				body = strings.Repeat("error body ", c.Rng.Intn(20))
